@@ -1130,7 +1130,13 @@ async fn run_session(c: &mut Conn) -> String {
                     } else if !name.is_empty() && (c.s.stmts.contains_key(&name) || c.s.sql_prepared.contains_key(&name)) {
                         c.err("42P05", &format!("prepared statement \"{}\" already exists", name));
                         c.s.skip_until_sync = true;
-                    } else if c.s.txn == b'E' {
+                    } else if c.s.txn == b'E'
+                        && !matches!(
+                            strip_comments(&q).trim_start().to_uppercase().split(|ch: char| !ch.is_ascii_alphabetic()).next().unwrap_or(""),
+                            "COMMIT" | "ROLLBACK" | "END" | "ABORT"
+                        )
+                    {
+                        // exec_parse_message: transaction-exit statements are accepted in a failed transaction
                         c.err("25P02", "current transaction is aborted");
                         c.s.skip_until_sync = true;
                     } else {
